@@ -23,9 +23,9 @@ import (
 // distinctive names so that disclosure is detectable in response bodies
 var c06Users = []seedUser{
 	{Name: "adm-zeta", PW: "zeta-password-1", Admin: true, PID: 1},
-	{Name: "adm-eta", PW: "eta-password-2", Admin: true, PID: 1},
+	{Name: "adm-eta", PW: "eta-password-2", Admin: true, PID: 3}, // scrypt record
 	{Name: "usr-theta", PW: "theta-password-3", Admin: false, PID: 1},
-	{Name: "usr-iota", PW: "iota-password-4", Admin: false, PID: 2},
+	{Name: "usr-iota", PW: "iota-password-4", Admin: false, PID: 3}, // scrypt record
 	// differs from usr-theta only in letter case: a different user (names are case-sensitive), and an admin
 	{Name: "Usr-Theta", PW: "Theta-password-5", Admin: true, PID: 1},
 	// '@' is a legal character in user names: another account, and an admin, whatever a frontend thinks of realms
